@@ -895,3 +895,127 @@ Proof.
     + destruct (J3 p A) as [B|B]; [left; apply J4; assumption | right; assumption].
     + right. apply J3b. assumption.
 Qed.
+
+(* ------------------------------------------------------------------ two runs, one file system *)
+Fixpoint exec2 (c1 c2 : config) (f : fs) (b1 b2 : bk) (il : list (bool * op)) : res (fs * bk * bk) :=
+  match il with
+  | [] => Ok (f, b1, b2)
+  | (true, o) :: t => match step c1 f b1 o with
+                      | Ok (f', b1') => exec2 c1 c2 f' b1' b2 t
+                      | Err e => Err e
+                      end
+  | (false, o) :: t => match step c2 f b2 o with
+                       | Ok (f', b2') => exec2 c1 c2 f' b1 b2' t
+                       | Err e => Err e
+                       end
+  end.
+
+Lemma run2_exec2 : forall c1 c2 il f b1 b2 i g,
+  run2 c1 c2 f b1 b2 il i = Accepted2 g <->
+  exists b1' b2', exec2 c1 c2 f b1 b2 il = Ok (g, b1', b2') /\ b_done b1' = true /\ b_done b2' = true.
+Proof.
+  intros c1 c2 il. induction il as [|[w o] t IH]; intros f b1 b2 i g; simpl.
+  - destruct (b_done b1) eqn:E1; [destruct (b_done b2) eqn:E2|]; split;
+      try discriminate;
+      try (intro H; inversion H; subst; eauto; fail);
+      try (intros [x [y [H [D1 D2]]]]; inversion H; subst; congruence).
+  - destruct w.
+    + destruct (step c1 f b1 o) as [[f1 b1']|code]; [apply IH|].
+      split; [discriminate | intros [x [y [H _]]]; discriminate].
+    + destruct (step c2 f b2 o) as [[f1 b2']|code]; [apply IH|].
+      split; [discriminate | intros [x [y [H _]]]; discriminate].
+Qed.
+
+Lemma region_reads : forall c N b p, inv c N b -> region c N b p -> reads c N p = true.
+Proof.
+  intros c N b p [_ [_ I3]] H. unfold reads. destruct H as [H|[H|[H|H]]].
+  - rewrite H. reflexivity.
+  - apply mem_In in H. rewrite H. rewrite orb_true_r. reflexivity.
+  - rewrite H. rewrite orb_true_r. reflexivity.
+  - apply I3 in H. apply mem_In in H. rewrite H. rewrite !orb_true_r. reflexivity.
+Qed.
+
+Lemma writes_false : forall c N x, writes c N x = false ->
+  in_cone c N x = false /\ mem x (c_outputs c) = false /\ wq c x = false.
+Proof.
+  intros c N x H. unfold writes in H. apply orb_false_iff in H. destruct H as [H H3].
+  apply orb_false_iff in H. tauto.
+Qed.
+
+Lemma step_frame_w : forall c N f b o g b' x,
+  inv c N b -> incl (op_fresh c o) N -> step c f b o = Ok (g, b') ->
+  writes c N x = false -> lookup g x = lookup f x.
+Proof.
+  intros c N f b o g b' x Hi Hn H Hw. apply writes_false in Hw. destruct Hw as [A [B C]].
+  assert (Hi' : inv c N b') by (eapply step_keeps_inv; eauto).
+  apply (step_frame c N f b o g b' x Hi Hn H A); [|exact C].
+  intro X. destruct Hi' as [_ [_ I3]]. apply I3 in X.
+  apply mem_false in B. contradiction.
+Qed.
+
+Lemma reads_false_of_sep : forall (R W : path -> bool) x,
+  (forall y, W y = true -> R y = false) -> R x = true -> W x = false.
+Proof.
+  intros R W x H Hr. destruct (W x) eqn:E; [|reflexivity]. apply H in E. congruence.
+Qed.
+
+Lemma exec2_sim : forall c1 c2 N1 N2,
+  (forall x, writes c1 N1 x = true -> reads c2 N2 x = false) ->
+  (forall x, writes c2 N2 x = true -> reads c1 N1 x = false) ->
+  forall il f f1 f2 b1 b2 g1 b1' g2 b2',
+  inv c1 N1 b1 -> inv c2 N2 b2 ->
+  incl (fresh_names c1 (proj true il)) N1 -> incl (fresh_names c2 (proj false il)) N2 ->
+  agree (region c1 N1 b1) f1 f -> agree (region c2 N2 b2) f2 f ->
+  exec c1 f1 b1 (proj true il) = Ok (g1, b1') -> exec c2 f2 b2 (proj false il) = Ok (g2, b2') ->
+  exists g, exec2 c1 c2 f b1 b2 il = Ok (g, b1', b2') /\
+    agree (region c1 N1 b1') g1 g /\ agree (region c2 N2 b2') g2 g /\
+    (forall x, in_cone c1 N1 x = false -> ~ In x (b_owned b1') -> wq c1 x = false ->
+               writes c2 N2 x = false -> lookup g x = lookup f x) /\
+    (forall x, in_cone c2 N2 x = false -> ~ In x (b_owned b2') -> wq c2 x = false ->
+               writes c1 N1 x = false -> lookup g x = lookup f x).
+Proof.
+  intros c1 c2 N1 N2 S12 S21 il.
+  induction il as [|[w o] t IH]; intros f f1 f2 b1 b2 g1 b1' g2 b2' I1 I2 F1 F2 A1 A2 E1 E2.
+  - simpl in *. inversion E1; subst. inversion E2; subst. exists f. repeat split; auto.
+  - destruct w.
+    + change (proj true ((true, o) :: t)) with (o :: proj true t) in *.
+      change (proj false ((true, o) :: t)) with (proj false t) in *.
+      simpl in E1. destruct (step c1 f1 b1 o) as [[h1 d1]|code] eqn:S; [|discriminate].
+      rewrite fresh_cons in F1.
+      pose proof (incl_app_l _ _ _ _ F1) as Fo. pose proof (incl_app_r _ _ _ _ F1) as Ft.
+      destruct (step_sim c1 N1 f1 f b1 o h1 d1 I1 Fo A1 S) as [h [S' [Ah _]]].
+      assert (I1' : inv c1 N1 d1) by (exact (step_keeps_inv c1 N1 f b1 o h d1 I1 Fo S')).
+      assert (FR : forall x, writes c1 N1 x = false -> lookup h x = lookup f x)
+        by (intros x Hw; exact (step_frame_w c1 N1 f b1 o h d1 x I1 Fo S' Hw)).
+      assert (A2' : agree (region c2 N2 b2) f2 h).
+      { intros x Hx. rewrite (A2 x Hx). symmetry. apply FR.
+        apply (reads_false_of_sep (reads c2 N2) (writes c1 N1) x S12).
+        exact (region_reads c2 N2 b2 x I2 Hx). }
+      destruct (IH h h1 f2 d1 b2 g1 b1' g2 b2' I1' I2 Ft F2 Ah A2' E1 E2) as [g [X [B1 [B2 [G1 G2]]]]].
+      exists g. simpl. rewrite S'. split; [assumption|]. split; [assumption|]. split; [assumption|].
+      split.
+      * intros x C O Q W. rewrite (G1 x C O Q W).
+        apply (step_frame c1 N1 f b1 o h d1 x I1 Fo S' C); [|exact Q].
+        intro Y. apply O. eapply exec_owned_mono; eauto.
+      * intros x C O Q W. rewrite (G2 x C O Q W). apply FR. assumption.
+    + change (proj true ((false, o) :: t)) with (proj true t) in *.
+      change (proj false ((false, o) :: t)) with (o :: proj false t) in *.
+      simpl in E2. destruct (step c2 f2 b2 o) as [[h2 d2]|code] eqn:S; [|discriminate].
+      rewrite fresh_cons in F2.
+      pose proof (incl_app_l _ _ _ _ F2) as Fo. pose proof (incl_app_r _ _ _ _ F2) as Ft.
+      destruct (step_sim c2 N2 f2 f b2 o h2 d2 I2 Fo A2 S) as [h [S' [Ah _]]].
+      assert (I2' : inv c2 N2 d2) by (exact (step_keeps_inv c2 N2 f b2 o h d2 I2 Fo S')).
+      assert (FR : forall x, writes c2 N2 x = false -> lookup h x = lookup f x)
+        by (intros x Hw; exact (step_frame_w c2 N2 f b2 o h d2 x I2 Fo S' Hw)).
+      assert (A1' : agree (region c1 N1 b1) f1 h).
+      { intros x Hx. rewrite (A1 x Hx). symmetry. apply FR.
+        apply (reads_false_of_sep (reads c1 N1) (writes c2 N2) x S21).
+        exact (region_reads c1 N1 b1 x I1 Hx). }
+      destruct (IH h f1 h2 b1 d2 g1 b1' g2 b2' I1 I2' F1 Ft A1' Ah E1 E2) as [g [X [B1 [B2 [G1 G2]]]]].
+      exists g. simpl. rewrite S'. split; [assumption|]. split; [assumption|]. split; [assumption|].
+      split.
+      * intros x C O Q W. rewrite (G1 x C O Q W). apply FR. assumption.
+      * intros x C O Q W. rewrite (G2 x C O Q W).
+        apply (step_frame c2 N2 f b2 o h d2 x I2 Fo S' C); [|exact Q].
+        intro Y. apply O. eapply exec_owned_mono; eauto.
+Qed.
